@@ -37,6 +37,18 @@ def cases(draw):
         c['fresh_disabled'] = True
     else:
         c['fresh_disabled'] = False
+    c['slow_cc'] = False
+    if draw(st.integers(0, 9)) == 0:
+        # a cross-check command that is uniformly slow in one repetition and fast
+        # in the others: with default limits (1.5 x its own golden run time + 1 s)
+        # that must not change anything
+        c['spec_cc'] = draw(gen_run.spec_for(c['text'], kind='monotone'))
+        c['spec_cc']['T'], c['spec_cc']['F'] = [0, 'cc-ok\n', ''], [1, 'cc-differs\n', '']
+        c['opts']['timeout'] = None
+        c['opts']['extra_argv'] = ['--disable-all', '--erase-node', '--constants', '--substitute-children']
+        c['opts']['strategy'] = draw(st.sampled_from(['ddmin', 'hierarchical']))
+        c['fresh_disabled'] = True
+        c['slow_cc'] = True
     c['hashseeds'] = ['0', str(draw(st.integers(1, 2**31))), str(draw(st.integers(1, 2**31)))]
     c['delays'] = [None, [draw(st.integers(0, 999)), [0, 1, 3]], [draw(st.integers(0, 999)), [2, 0, 0, 5]]]
     return c
@@ -47,12 +59,16 @@ def run_case(case, acc, wd):
     for i in range(3):
         sp = dict(case['spec'])
         sp['delay'] = case['delays'][i]
+        spcc = None
+        if case.get('spec_cc'):
+            spcc = dict(case['spec_cc'])
+            spcc['delay'] = [0, [1600]] if (case.get('slow_cc') and i == 1) else None
         r = e2e.run_ddsmt(f'{wd}-{i}', case['text'], sp, case['opts'], mode='launcher',
                           plan=dict(stop_on_repeat=True, max_accepts=300), hashseed=case['hashseeds'][i],
-                          wall_limit=120)
+                          wall_limit=300 if case.get('slow_cc') else 120, spec_cc=spcc)
         runs.append(r)
         shutil.rmtree(f'{wd}-{i}', ignore_errors=True)
-    classes = [f'strategy-{case["opts"]["strategy"]}',
+    classes = [f'strategy-{case["opts"]["strategy"]}'] + (['slow-cross-check-in-one-repetition'] if case.get('slow_cc') else []) + [
                'fresh-disabled' if case['fresh_disabled'] else 'fresh-enabled']
     if any(r.timed_out or r.after is None for r in runs):
         acc.skip('run-wall-limit-or-crash')
@@ -90,8 +106,15 @@ def shard(ctx, acc):
     total = 64 if ctx.quick else 1200
     n = [0]
 
+    slow = [0]
+    slow_budget = 1 if ctx.quick else 6
+
     def body(case):
         n[0] += 1
+        if case.get('slow_cc'):
+            slow[0] += 1
+            if slow[0] > slow_budget:  # these cost minutes: bounded number per shard
+                case = dict(case, slow_cc=False, spec_cc=None)
         nt, classes = run_case(case, acc, os.path.join(ctx.workdir, f'run{n[0]}'))
         acc.case(case, nontrivial=nt, classes=classes,
                  sample=dict(input=case['text'][:400], spec=case['spec'], opts=case['opts'],
